@@ -339,10 +339,10 @@ func b01(b bool) int {
 // claimOracle evaluates, with the real keeper functions and on the state right before the
 // DeliverTx, every fact ValidateClaim/SetClaim look at.  These are the oracle inputs of the Lean
 // transition (session selection, allowance arithmetic, staking state belong to other properties).
-func (s *sim) claimOracle(ctx sdk.Context, m pc.MsgClaim, anteOK bool) string {
+func (s *sim) claimOracle(ctx sdk.Context, m pc.MsgClaim, dup, anteOK bool) string {
 	pk := s.n.App.VerifPocketKeeper()
 	var sb strings.Builder
-	fmt.Fprintf(&sb, "vb=%s ante=%d", errCode(m.ValidateBasic()), b01(anteOK))
+	fmt.Fprintf(&sb, "dup=%d vb=%s ante=%d", b01(dup), errCode(m.ValidateBasic()), b01(anteOK))
 	S := m.SessionHeader.SessionBlockHeight
 	sessCtx, err := ctx.PrevCtx(S)
 	if err != nil {
@@ -366,7 +366,12 @@ func (s *sim) claimOracle(ctx sdk.Context, m pc.MsgClaim, anteOK bool) string {
 							sessRes = errCode(e)
 						} else {
 							inSess = sess.SessionNodes.Contains(m.FromAddress)
-							sessRes = errCode(sess.Validate(m.FromAddress, app, int(cnt)))
+							// Session.Validate checks membership last: an InvalidSession error means every earlier check passed
+							ve := sess.Validate(m.FromAddress, app, int(cnt))
+							if ve != nil && ve.Code() == pc.CodeInvalidSessionError {
+								ve = nil
+							}
+							sessRes = errCode(ve)
 						}
 					}
 				}
@@ -380,11 +385,11 @@ func (s *sim) claimOracle(ctx sdk.Context, m pc.MsgClaim, anteOK bool) string {
 }
 
 // proofOracle evaluates every fact ValidateProof/ExecuteProof look at (real functions, state before DeliverTx).
-func (s *sim) proofOracle(ctx sdk.Context, m pc.MsgProof, anteOK bool) string {
+func (s *sim) proofOracle(ctx sdk.Context, m pc.MsgProof, dup, anteOK bool) string {
 	pk := s.n.App.VerifPocketKeeper()
 	nk := s.n.App.VerifNodesKeeper()
 	var sb strings.Builder
-	fmt.Fprintf(&sb, "vb=%s ante=%d", errCode(m.ValidateBasic()), b01(anteOK))
+	fmt.Fprintf(&sb, "dup=%d vb=%s ante=%d", b01(dup), errCode(m.ValidateBasic()), b01(anteOK))
 	signer := m.GetSigners()[0]
 	claim, found := pk.GetClaim(ctx, signer, m.GetLeaf().SessionHeader(), m.EvidenceType)
 	lvl, rootm, sctx, idxAvail, idxOK, mk, appF, leaf, rw := false, false, false, false, false, "na", false, "na:0", "-"
